@@ -63,6 +63,10 @@ pub enum Entry {
     RingCheckAll,
     /// decrypt / decrypt_with_password / decrypt_with_session_key (single secret only)
     Simple,
+    /// decrypt_legacy (a single key)
+    Legacy,
+    /// decrypt_with_keys (keys and key passwords only)
+    WithKeys,
 }
 
 #[derive(Clone, Debug, Hash, Serialize, Deserialize)]
@@ -122,7 +126,8 @@ fn wrong_session_key(cfg: &MsgCfg, seed: u64, how: u8) -> PlainSessionKey {
     match how {
         0 => {
             let mut b = bytes;
-            b[0] ^= 0x01;
+            // not the low bit: it is a parity bit in (Triple)DES keys, i.e. the same key
+            b[0] ^= 0x10;
             mk(b, v6, sym)
         }
         1 => mk(vec![0x55; if bytes.len() == 16 { 32 } else { 16 }], v6, if sym == 7 { 9 } else { 7 }),
@@ -238,7 +243,7 @@ fn run(c: &Case) -> Outcome {
                 Expect::Error
             }
         }
-        Entry::RingAbortEarly | Entry::Simple => {
+        Entry::RingAbortEarly | Entry::Simple | Entry::Legacy | Entry::WithKeys => {
             if has_wrong_sk || has_right_sk {
                 if first_sk_wrong {
                     Expect::Error
@@ -265,6 +270,11 @@ fn run(c: &Case) -> Outcome {
             Secret::RecipientPassword(_) | Secret::DecoyPassword => msg.decrypt_with_password(&p.msg_pws[0]).map_err(|e| e.to_string()),
             Secret::SessionKey | Secret::WrongSessionKey(_) => msg.decrypt_with_session_key(p.sks[0].clone()).map_err(|e| e.to_string()),
         },
+        Entry::Legacy => {
+            let pw = p.key_pws.last().map(|p| p.read().to_vec()).unwrap_or_default();
+            msg.decrypt_legacy(&Password::from(&pw[..]), key_refs[0]).map_err(|e| e.to_string())
+        }
+        Entry::WithKeys => msg.decrypt_with_keys(p.key_pws.iter().collect(), key_refs.clone()).map_err(|e| e.to_string()),
         Entry::RingAbortEarly | Entry::RingCheckAll => {
             let ring = TheRing {
                 secret_keys: key_refs.clone(),
@@ -586,6 +596,11 @@ pub fn check(ctx: &Ctx) {
             }
         }
     }
+    // every other SEIPDv1 cipher (64-bit and 128-bit blocks): a password alone, and a key next to a password
+    for sym in [1u8, 2, 3, 4, 7, 8, 10, 11, 12, 13] {
+        cfgs.push(base(Enc::V1(sym), vec![EskSpec::Password(0)]));
+        cfgs.push(base(Enc::V1(sym), vec![EskSpec::Key(KeyKind::Ed25519V4, false), EskSpec::Password(1)]));
+    }
     // SEIPDv2 to a v4 key (v6 PKESK for a v4 X25519 key)
     cfgs.push(base(Enc::V2(9, 1, 0), vec![EskSpec::Key(KeyKind::Ed25519V4, false), EskSpec::Password(0)]));
     // ... addressed and anonymous, for every v4 key kind
@@ -632,12 +647,18 @@ pub fn check(ctx: &Ctx) {
                     forge_id_to_decoy: None,
                 });
             }
+            if sel.iter().all(|s| matches!(s, Secret::RecipientKey(_) | Secret::DecoyKey(_))) {
+                cases.push(Case { cfg: cfg.clone(), presented: sel.clone(), entry: Entry::WithKeys, n: 300, forge_id_to_decoy: None });
+                if sel.len() == 1 {
+                    cases.push(Case { cfg: cfg.clone(), presented: sel.clone(), entry: Entry::Legacy, n: 300, forge_id_to_decoy: None });
+                }
+            }
         }
         // locked recipient keys with every key-password situation
         if let Some(i) = first_key {
             for pw in 0..4u8 {
-                for entry in [Entry::RingAbortEarly, Entry::RingCheckAll, Entry::Simple] {
-                    if entry == Entry::Simple && pw == 3 {
+                for entry in [Entry::RingAbortEarly, Entry::RingCheckAll, Entry::Simple, Entry::Legacy, Entry::WithKeys] {
+                    if matches!(entry, Entry::Simple | Entry::Legacy) && pw == 3 {
                         continue;
                     }
                     cases.push(Case {
@@ -647,6 +668,9 @@ pub fn check(ctx: &Ctx) {
                         n: 50,
                         forge_id_to_decoy: None,
                     });
+                    if entry == Entry::Legacy {
+                        continue;
+                    }
                     cases.push(Case {
                         cfg: cfg.clone(),
                         presented: vec![Secret::DecoyKey(i), Secret::LockedRecipientKey(i, pw)],
@@ -698,7 +722,7 @@ pub fn check(ctx: &Ctx) {
     ctx.run_space(
         "recipient_sets_x_presented_secrets",
         true,
-        "messages to recipient sets (each public-key algorithm addressed/anonymous; passwords x 3 S2K kinds; mixed sets of 2-3, thorough: every ordered pair of recipient keys and every key next to every password kind; SEIPDv1 + v3 PKESK/v4 SKESK and SEIPDv2 + v6, the latter also to every v4 key kind addressed and anonymous) x every ordered selection of up to 3 (thorough 4) presented secrets out of {recipient keys, an unrelated key of the same kind, recipient passwords, an unrelated password, the real session key, a wrong session key} x decrypt_the_ring abort_early on/off (+ the simple entry points for single secrets); locked recipient keys with no / wrong / right / wrong+right key password; wrong session keys of 4 shapes; a decoy key forged into the PKESK recipient field. Oracle (set arithmetic): a presented recipient secret => the plaintext; none => an error and no plaintext byte (SEIPDv2: at most a prefix); check-all with a wrong session key next to a good secret => an error.",
+        "messages to recipient sets (each public-key algorithm addressed/anonymous; passwords x 3 S2K kinds; mixed sets of 2-3, thorough: every ordered pair of recipient keys and every key next to every password kind; SEIPDv1 + v3 PKESK/v4 SKESK (AES-256; a password and key+password also under each of the other 10 ciphers incl. the 64-bit-block ones) and SEIPDv2 + v6, the latter also to every v4 key kind addressed and anonymous) x every ordered selection of up to 3 (thorough 4) presented secrets out of {recipient keys, an unrelated key of the same kind, recipient passwords, an unrelated password, the real session key, a wrong session key} x decrypt_the_ring abort_early on/off (+ decrypt / decrypt_with_password / decrypt_with_session_key / decrypt_legacy for single secrets, decrypt_with_keys for key-only selections); locked recipient keys with no / wrong / right / wrong+right key password; wrong session keys of 4 shapes; a decoy key forged into the PKESK recipient field. Oracle (set arithmetic): a presented recipient secret => the plaintext; none => an error and no plaintext byte (SEIPDv2: at most a prefix); check-all with a wrong session key next to a good secret => an error.",
         cases.into_par_iter(),
         run,
     );
